@@ -669,3 +669,30 @@ pub fn generic_faults(text: &str) -> Vec<(&'static str, String)> {
   ];
   edits.iter().filter(|(_, from, _)| text.contains(from)).map(|(op, from, to)| (*op, text.replacen(from, to, 1))).collect()
 }
+
+/// spellings of the same generic zoo module that the generator knows to be equivalent (it knows
+/// the types it built): an annotation on a let, explicit type arguments, an else-if written as a
+/// nested block. (kind, rewritten text); only edits whose anchor occurs in `text` are returned.
+pub fn generic_zoo_equivalents(text: &str) -> Vec<(&'static str, String)> {
+  let edits: &[(&'static str, &str, &str)] = &[
+    ("known-annotation-on-let", "let elseIfOpt = if", "let elseIfOpt: Option<int> = if"),
+    ("known-explicit-type-arguments", "{ Option.None() } else { Option.None() };\n    Process.println(\"elseIfOpt", "{ Option.None<int>() } else { Option.None<int>() };\n    Process.println(\"elseIfOpt"),
+    ("else-if-as-nested-block", " else if Feet.init(2).v > 5 { Option.None() } else { Option.None() };", " else { if Feet.init(2).v > 5 { Option.None() } else { Option.None() } };"),
+    ("known-annotation-on-let", "let elseIfLam = if", "let elseIfLam: (int) -> int = if"),
+    ("else-if-as-nested-block", " else if Feet.init(2).v > 5 { (x) -> x } else { (x) -> 0 - x };", " else { if Feet.init(2).v > 5 { (x) -> x } else { (x) -> 0 - x } };"),
+    ("known-annotation-on-lambda-parameters", "{ (x) -> x } else { (x) -> 0 - x }", "{ (x: int) -> x } else { (x: int) -> 0 - x }"),
+    ("known-annotation-on-let", "let elseIfGeneric = if", "let elseIfGeneric: Option<Fwd<Meters, Feet>> = if"),
+    ("else-if-as-nested-block", " else if Feet.init(9).v > 5 { Option.Some(Fwd.init(Meters.init(2), Feet.init(0))) } else { Option.None() };", " else { if Feet.init(9).v > 5 { Option.Some(Fwd.init(Meters.init(2), Feet.init(0))) } else { Option.None() } };"),
+    ("known-annotation-on-let", "let fwd = Fwd.init(", "let fwd: Fwd<Meters, Feet> = Fwd.init("),
+    ("known-explicit-type-arguments", "let fwd = Fwd.init(", "let fwd = Fwd.init<Meters, Feet>("),
+    ("known-annotation-on-let", "let bwd = Bwd.init(", "let bwd: Bwd<Feet, Meters> = Bwd.init("),
+    ("known-explicit-type-arguments", "let bwd = Bwd.init(", "let bwd = Bwd.init<Feet, Meters>("),
+    ("known-annotation-on-let", "let best = Best.init(", "let best: Best<Feet> = Best.init("),
+    ("known-annotation-on-let", "let chain = Chain.init(", "let chain: Chain<Meters, Feet, Inches> = Chain.init("),
+    ("known-explicit-type-arguments", "let chain = Chain.init(", "let chain = Chain.init<Meters, Feet, Inches>("),
+    ("known-explicit-type-arguments", "Main.conv(Meters.init(7)", "Main.conv<Meters, Feet>(Meters.init(7)"),
+    ("known-explicit-type-arguments", "Main.convBack(Feet.init(0)", "Main.convBack<Feet, Meters>(Feet.init(0)"),
+    ("known-annotation-on-let", "let boxed = Box.init(", "let boxed: Box<Fwd<Meters, Feet>> = Box.init("),
+  ];
+  edits.iter().filter(|(_, from, _)| text.contains(from)).map(|(k, from, to)| (*k, text.replacen(from, to, 1))).collect()
+}
